@@ -48,7 +48,7 @@ class Experiment:
                          'Fluorescence Channels': ', '.join(d['fl']), 'Time Channel': d['time']})
         return pd.DataFrame(rows).set_index('ID')
 
-    def write_fcs(self, name, iid, kind='cells', n=600, voltage=450, log_fl=True, seed=0, linear_scatter=False, nonneg=False, scatter_out=False, time_order='sorted'):
+    def write_fcs(self, name, iid, kind='cells', n=600, voltage=450, log_fl=True, seed=0, linear_scatter=False, nonneg=False, scatter_out=False, time_order='sorted', voltages=None):
         d = self.inst[iid]
         r = np.random.RandomState(seed)
         names = [d['fsc'], d['ssc']] + d['fl'] + [d['time']]
@@ -87,6 +87,8 @@ class Experiment:
             tcol = np.round(tcol * 7) % 700          # a wrapping tick counter: not monotone along the event list
         elif time_order == 'random':
             tcol = r.permutation(tcol)
+        elif time_order == 'const':
+            tcol = np.full(n, 417.0)
         cols.append(tcol)
         data = np.stack(cols, axis=1)
         if self.datatype == 'I':
@@ -118,8 +120,8 @@ class Experiment:
                 pne[str(i + 1)] = '0,0'
         extra = [['$TIMESTEP', '0.01'], ['$BTIM', '10:00:00'], ['$ETIM', '10:00:09'], ['$DATE', '02-OCT-2015']]
         for i, nm in enumerate(names):
-            if nm in d['fl']:
-                extra.append(['$P%dV' % (i + 1), str(voltage)])
+            if nm in d['fl'] and (voltages or {}).get(nm, voltage) is not None:      # voltage None: the file does not record $PnV
+                extra.append(['$P%dV' % (i + 1), str((voltages or {}).get(nm, voltage))])
         if self.scatter_gain:
             extra += [['$P1G', str(self.scatter_gain)], ['$P2G', str(self.scatter_gain)]]
         spec = {'version': 'FCS3.0', 'delim': '/', 'datatype': self.datatype, 'byteord': '1,2,3,4', 'widths': widths,
